@@ -1030,28 +1030,89 @@ def r111(ctx, repo):
                f"{name} writes the underlying dict without validation: "
                f"`{short(raw[0], 50)}`", node=raw[0] if raw else f,
                key=f"{CONF}::ConfigurationDict.{name}::no raw store")
-    # (b) own mutators route through __setitem__
+    # (b) own mutators route through __setitem__: `update` is interpreted on
+    # an instance whose __setitem__ and raw dict record what reaches them
+    # (helper methods of the class are followed; super().update is the
+    # MutableMapping mixin, which assigns item by item)
     upd = methods.get("update")
     if upd is not None:
-        params = [a.arg for a in upd.args.args[1:]]
-        if upd.args.kwarg:
-            params.append(upd.args.kwarg.arg)
-        stores = _self_setitem_calls(upd)
-        sup = [c for c in walk(upd) if _is_super_call(c, "update")]
-        for p in params:
-            ok = bool(sup) and any(p in names_in(c) for c in sup)
-            for lp in walk(upd):
-                if isinstance(lp, ast.For) and p in names_in(lp.iter):
-                    for s in stores:
-                        if any(s is x for x in walk(lp)) and p in names_in(
-                                s):
-                            ok = True
-            ctx.ob("R11.1", ok,
-                   f"update(): every entry of `{p}` goes through "
-                   "__setitem__ with its own value" if ok else
-                   f"update(): entries of `{p}` are not stored through "
-                   "__setitem__", node=upd,
-                   key=f"{CONF}::ConfigurationDict.update::routes {p}")
+        from ..lib_C11 import ClassModel
+        interp = Interp()
+        g = {}
+        cm = ClassModel(cls, g, interp, strict_instances=True)
+        g["ConfigurationDict"] = cm
+
+        def run_update(args, kwargs):
+            stored, raw = [], []
+
+            class Raw(dict):
+                def __setitem__(self, k, v):
+                    raw.append((k, v))
+
+                def update(self, *a, **k):
+                    raw.append(("update", a, k))
+
+                def setdefault(self, k, v=None):
+                    raw.append((k, v))
+
+            def setitem(k, v):
+                stored.append((k, v))
+            setitem.model_callable = True
+            me = cm.instance(data=Raw(), section="setup")
+            me.__dict__["__setitem__"] = setitem
+
+            class Super:
+                model_object = True
+
+                def update(self, *a, **k):
+                    for m in list(a) + [k]:
+                        for kk in m:
+                            setitem(kk, m[kk])
+
+                def __setitem__(self, k, v):
+                    raw.append((k, v))
+            g["super"] = lambda *a: Super()
+            interp.steps = 0
+            try:
+                Func(upd, g, interp)(me, *args, **kwargs)
+                err = None
+            except ModelRaise as e:
+                err = e.name
+            return stored, raw, err
+        pos = [a.arg for a in upd.args.args[1:]]
+        kwname = upd.args.kwarg.arg if upd.args.kwarg else None
+        cases = []
+        if pos:
+            cases.append((pos[0], ({"A": 1, "b": "2"},), {},
+                          [("A", 1), ("b", "2")]))
+        if kwname:
+            cases.append((kwname, (), {"c": 3.0, "D": None},
+                          [("c", 3.0), ("D", None)]))
+        if pos and kwname:
+            cases.append((f"{pos[0]} and {kwname}", ({"A": 1},),
+                          {"c": 3.0}, [("A", 1), ("c", 3.0)]))
+        for what, a, k, want in cases:
+            stored, raw, err = run_update(a, k)
+            problems = []
+            if err:
+                problems.append(f"raises {err}")
+            if raw:
+                problems.append(f"writes {raw[0]} into the raw dict")
+            if sorted(stored, key=repr) != sorted(want, key=repr):
+                problems.append(f"__setitem__ receives {stored}, expected "
+                                f"{want}")
+            ctx.ob("R11.1", not problems,
+                   f"update(): every entry of `{what}` goes through "
+                   "__setitem__ with its own value" if not problems else
+                   f"update(): entries of `{what}` are not stored through "
+                   "__setitem__: " + "; ".join(problems), node=upd,
+                   key=f"{CONF}::ConfigurationDict.update::routes {what}")
+        stored, raw, err = run_update((), {})
+        ok = not stored and not raw and not err
+        ctx.ob("R11.1", ok, "update() without arguments stores nothing"
+               if ok else f"update() without arguments: {err or stored}",
+               node=upd, key=f"{CONF}::ConfigurationDict.update::empty",
+               nontrivial=False)
     ck = methods.get("_convert_keys")
     init = methods.get("__init__")
     if init is None:
@@ -2405,4 +2466,46 @@ TWINS = list(TWINS) + [
      ('            if "fluorescence:channel count" not in self.h5file.attrs:',
       '            if self.h5file.attrs.get("fluorescence:channel count") '
       'is None:')),
+]
+
+# round-3 refactorings (reduced)
+TWINS = list(TWINS) + [
+    ("update loops moved into a private helper", CONF,
+     ("        for key in E:\n            self.__setitem__(key, E[key])\n"
+      "        for key in F:\n            self.__setitem__(key, F[key])\n",
+      "        self._set_items_from(E)\n        self._set_items_from(F)\n\n"
+      "    def _set_items_from(self, mapping):\n"
+      "        for key in mapping:\n"
+      "            self.__setitem__(key, mapping[key])\n")),
+    ("update delegates to the MutableMapping mixin", CONF,
+     ("        for key in E:\n            self.__setitem__(key, E[key])\n"
+      "        for key in F:\n            self.__setitem__(key, F[key])\n",
+      "        super(ConfigurationDict, self).update(E, **F)\n")),
+    ("table lookup with an assignment expression", ML,
+     [("    elif meta_const.config_funcs.get(section, {}).get(key, False):\n"
+       "        func = meta_const.config_funcs[section][key]\n",
+       "    elif (table_func := meta_const.config_funcs.get(section, {})"
+       ".get(key)):\n        func = table_func\n"),
+      ("    elif meta_const.config_types.get(section, {}).get(key, False):\n"
+       "        typ = meta_const.config_types[section][key]\n",
+       "    elif (table_typ := meta_const.config_types.get(section, {})"
+       ".get(key)):\n        typ = table_typ\n")]),
+]
+MUTANTS = list(MUTANTS) + [
+    ("update helper only called for the positional mapping", CONF,
+     ("        for key in E:\n            self.__setitem__(key, E[key])\n"
+      "        for key in F:\n            self.__setitem__(key, F[key])\n",
+      "        self._set_items_from(E)\n\n"
+      "    def _set_items_from(self, mapping):\n"
+      "        for key in mapping:\n"
+      "            self.__setitem__(key, mapping[key])\n"), "R11.1"),
+    ("update helper stores the key as value", CONF,
+     ("        for key in E:\n            self.__setitem__(key, E[key])\n",
+      "        for key in E:\n            self.__setitem__(key, key)\n"),
+     "R11.1"),
+    ("type lookup with walrus from the converter table", ML,
+     ("    elif meta_const.config_types.get(section, {}).get(key, False):\n"
+      "        typ = meta_const.config_types[section][key]\n",
+      "    elif (table_typ := meta_const.config_funcs.get(section, {})"
+      ".get(key)):\n        typ = table_typ\n"), "R11.2"),
 ]
